@@ -51,3 +51,17 @@ Print Assumptions C19_reorder_keeps_everything.
 Example C19_example :
   symbol_names (s2l "") (s2l "Gen") [s2l "Alpha"; s2l "Beta"] = [s2l "AlphaGen"; s2l "BetaGen"].
 Proof. vm_compute. reflexivity. Qed.
+
+(* the sanitiser of symbol names (pure_utils.ensure_valid_identifier; compared with the code on strings over keywords, soft
+   keywords, digits, punctuation and non-ASCII letters each run), for EVERY string: the result is never empty and consists of
+   identifier characters only *)
+Theorem C19_sanitised_name_chars : forall s,
+  ensure_valid_identifier s <> [] /\ forallb valid_ident_char (ensure_valid_identifier s) = true.
+Proof. exact ensure_valid_identifier_chars. Qed.
+Print Assumptions C19_sanitised_name_chars.
+
+(* ... but "identifier characters only" is not "an identifier": what is left after dropping the other characters may start with a
+   digit or be a keyword (facts about the faithful model; the templated names of the generated inputs never get there) *)
+Theorem C19_sanitised_name_refuted :
+  ensure_valid_identifier (s2l "-1x") = s2l "1x" /\ ensure_valid_identifier (s2l "cl-ass") = s2l "class".
+Proof. split; vm_compute; reflexivity. Qed.
